@@ -59,7 +59,7 @@ func (g *generator) optU64(p float64) *uint64 {
 	return nil
 }
 
-var prefixPool = []string{"/", "/a", "/a/b", "/a/b/c", "/a/d", "/e", "/e/f", "/localhost/x", "/localhop/nfd", "/a/b/c/d/e"}
+var prefixPool = []string{"/", "/a", "/a/b", "/a/b/c", "/a/d", "/e", "/e/f", "/localhost/x", "/localhop/nfd", "/a/b/c/d/e", "/a", "/a/b", "/a/b/c", "/a/b/c/d"}
 
 func (g *generator) prefix() enc.Name {
 	n, _ := enc.NameFromStr(prefixPool[g.r.Intn(len(prefixPool))])
@@ -264,11 +264,32 @@ func (g *generator) args(module, verb string, nfaces int) (*mgmt.ControlArgs, st
 	}
 	switch module + "/" + verb {
 	case "rib/register":
+		if len(g.routes) > 0 && g.chance(0.4) {
+			// re-register an existing (prefix, face, origin) with a changed cost and/or changed flags (an update in place),
+			// including an explicit Flags=0 and the capture flag
+			r := g.routes[g.r.Intn(len(g.routes))]
+			a.Name, a.FaceId, a.Origin = r.Name, r.FaceId, r.Origin
+			a.Cost = utils.IdPtr(uint64(g.r.Intn(12)))
+			switch g.r.Intn(5) {
+			case 0:
+				a.Flags = nil
+			default:
+				a.Flags = utils.IdPtr(uint64(g.r.Intn(4)))
+			}
+			label = "rib-update"
+			break
+		}
 		withName(0.93)
 		withFace(0.6)
 		a.Origin = g.optU64(0.3)
 		a.Cost = g.optU64(0.5)
 		a.Flags = g.optU64(0.4)
+		if g.chance(0.5) {
+			a.Flags = g.optU64(0.8)
+			if a.Flags != nil {
+				*a.Flags = uint64(g.r.Intn(4)) // 0, child-inherit, capture, both
+			}
+		}
 		if g.chance(0.25) {
 			a.ExpirationPeriod = utils.IdPtr([]uint64{0, 1, 1000, 3600000, 9223372036854, 9223372036855, 1 << 62, 1<<64 - 1}[g.r.Intn(8)])
 		}
@@ -500,8 +521,18 @@ func (g *generator) genCase() *caseSpec {
 	cs := &caseSpec{localhop: g.chance(0.4)}
 	cs.faces = append([]faceSpec{}, facePool[g.r.Intn(len(facePool))]...)
 	n := 6 + g.r.Intn(20)
+	readBack := func(m, v string) opCmd {
+		return opCmd{inFace: 2, name: enc.Name{gen("localhost"), gen("nfd"), gen(m), gen(v)}, label: m + "/" + v + ",after-rib-change"}
+	}
 	for i := 0; i < n; i++ {
-		cs.cmds = append(cs.cmds, g.command(len(cs.faces)))
+		c := g.command(len(cs.faces))
+		cs.cmds = append(cs.cmds, c)
+		if strings.Contains(c.label, "rib-update") || (strings.HasPrefix(c.label, "rib/") && g.chance(0.15)) {
+			cs.cmds = append(cs.cmds, readBack("fib", "list"))
+			if g.chance(0.5) {
+				cs.cmds = append(cs.cmds, readBack("rib", "list"))
+			}
+		}
 	}
 	// every history ends by reading every table back through the datasets
 	for _, mv := range [][2]string{{"rib", "list"}, {"fib", "list"}, {"strategy-choice", "list"}, {"cs", "info"}, {"faces", "list"}, {"status", "general"}} {
